@@ -23,7 +23,7 @@ from lv import harness, tlc
 DEFAULTS = dict(main_module_type=False, norm=['none', 'None', []], frozen=False, hashable=False, eq_twin=False, neq_other_types=False, key='',
                 variants=[], recon_eq=False, pickle_ok=False, pickle_after_run_clean=False, storage_accepts=False,
                 deps=[], ser=['jnone', 'None', []], ran=False, listed_own=0, listed_elsewhere=0, listed_key_ok=False,
-                listed_meta_ok=False, listed_loads_stored=False, exc='')
+                listed_meta_ok=False, listed_loads_stored=False, relisted_meta_ok=True, exc='')
 
 
 def emit_cases(scratch):
